@@ -686,7 +686,12 @@ func (ex *Exec) fmtOperand(caller *frame, verb byte, flags string, arg Value) []
 		}
 	case *Term:
 		if k, ok := basicInt(t); ok && (x.Sort.K == SBV || x.Sort.K == SInt) {
-			c := ex.concInt(x, k)
+			var c int64
+			if x.Sort.K == SInt {
+				c = int64(ex.concretiseUpTo(x, 4))
+			} else {
+				c = k.norm(int64(ex.concretiseUpTo(x, 4)))
+			}
 			return ex.fmtOperand(caller, verb, flags, iface{t: t, v: c})
 		}
 		if x.Sort.K == SBool {
